@@ -76,6 +76,15 @@ def run(ctx):
         inp = {"family": fam, "len": total, "seed": 900 + seed, "p1": 3}
         members = [([total], 1, 0), ([total], 2, 0), ([total], 4, 10), ([1 << 20, total - (1 << 20)], 1, 0)]
         groups.append((gi, o, inp, members, None))
+    # ReadFrom: the same stream from sources that hand their bytes over differently (whole, in pieces, the last bytes together
+    # with io.EOF, with empty reads in between) - lengths that are and are not multiples of the block size
+    for total in (B, 2 * B, 3 * B + 5, 0):
+        gi = len(groups)
+        o = {"code": 4, "bcs": total % 2 == 0, "ccs": True, "level": 0, "legacy": False, "handler": False}
+        inp = {"family": "text", "len": total, "seed": 600 + gi, "p1": B}
+        members = [([("readfrom", 0, fr, ew)], conc, p) for fr, ew in (([], False), ([], True), ([B], True), ([4096], True), ([0, 7, 0, 100000], False), ([B // 2], True))
+                   for conc, p in ((1, 0), (4, 10))]
+        groups.append((gi, o, inp, members, "readfrom"))
     # fixed call sequences WITH Flush calls (an explicit block boundary): identical for every concurrency level and schedule
     for gi in range(len(groups), len(groups) + (8 if q else 80)):
         o = {"code": 4, "bcs": gi % 2 == 0, "ccs": True, "level": 0, "legacy": False, "handler": False}
@@ -108,6 +117,8 @@ def run(ctx):
         for sizes, conc, perturb in members:
             if kind is None:
                 calls = [{"op": "write", "n": n} for n in sizes] + [{"op": "close"}]
+            elif kind == "readfrom":
+                calls = [{"op": "readfrom", "n": 0, "frag": fr, "eofw": ew} for _op, _n, fr, ew in sizes] + [{"op": "close"}]
             else:
                 calls = [{"op": op, "n": n} if op == "write" else {"op": op} for op, n in sizes] + [{"op": "close"}]
             cases.append({"id": len(cases) + 1, "kind": "writer", "input": inp, "opts": dict(o, conc=conc), "calls": calls,
